@@ -40,12 +40,21 @@ BASE = None         # scratch directory of this run
 
 
 def score_of(rank, scale):
+    if scale == "inf":          # as "lin", but the lowest rank is minus infinity (a legal float score; ties among such rows)
+        return float("-inf") if rank == 1 else 0.5 * rank - 2.25
     a, b = SCALES[scale]
     return a * rank + b
 
 
 def rank_of(x, scale):
     """Inverse of score_of on the returned float; 0 if the value is not one of the written scores."""
+    if scale == "inf":
+        try:
+            if float(x) == float("-inf"):
+                return 1
+        except Exception:
+            return 0
+        scale = "lin"
     a, b = SCALES[scale]
     try:
         x = float(x)
@@ -57,7 +66,7 @@ def rank_of(x, scale):
     return r
 
 
-def write_inputs(d: Path, inputs, fmt, ext, scale, names=COLUMNS, tag="in"):
+def write_inputs(d: Path, inputs, fmt, ext, scale, names=COLUMNS, tag="in", nullpay=False):
     import pyarrow as pa
     import pyarrow.parquet as pq
     paths = []
@@ -66,7 +75,7 @@ def write_inputs(d: Path, inputs, fmt, ext, scale, names=COLUMNS, tag="in"):
         n = len(ranks)
         ids = ["r%d_%d" % (f, i) for i in range(1, n + 1)]
         sc = [score_of(r, scale) for r in ranks]
-        pay = [1000 * f + i for i in range(1, n + 1)]
+        pay = [(None if (nullpay and fmt == "parquet" and i % 5 == 0) else 1000 * f + i) for i in range(1, n + 1)]
         txt = ["t%d/%d" % (f, i) for i in range(1, n + 1)]
         if fmt == "parquet":
             pq.write_table(pa.table({names[0]: ids, names[1]: pa.array(sc, pa.float64()),
@@ -84,7 +93,7 @@ def _plain(v):
     return v.item() if hasattr(v, "item") else v
 
 
-def project(rows, scale, names=COLUMNS):
+def project(rows, scale, names=COLUMNS, exact_types=False):
     """Returned rows (dicts) -> ints / strings / bools.  No property is decided here."""
     out, rk, pay, txt = [], [], [], []
     ok = True
@@ -97,7 +106,12 @@ def project(rows, scale, names=COLUMNS):
         rk.append(rank_of(row.get("score"), scale))
         try:
             v = _plain(row.get("pay"))
-            pay.append(int(v) if float(v) == int(v) and abs(int(v)) < 2 ** 30 else -1)
+            if v is None or (isinstance(v, float) and v != v):
+                pay.append(-2)                                   # NULL
+            elif exact_types and not isinstance(v, int):
+                pay.append(-3)                                   # the row-dictionary merge hands the file's values on as they are
+            else:
+                pay.append(int(v) if float(v) == int(v) and abs(int(v)) < 2 ** 30 else -1)
         except Exception:
             pay.append(-1)
         txt.append(str(_plain(row.get("txt"))))
@@ -116,7 +130,8 @@ def call_real(case):
     names = STYLED if case.get("styled") else COLUMNS
     score_col = names[1]
     try:
-        paths = write_inputs(d, inputs, case["fmt"], case["ext"], scale, names)
+        nullpay = bool(case.get("nullpay")) and case["fmt"] == "parquet"
+        paths = write_inputs(d, inputs, case["fmt"], case["ext"], scale, names, nullpay=nullpay)
         try:
             if impl == "rowdict":
                 old = U.MERGE_SORT_CHUNK_SIZE
@@ -169,8 +184,8 @@ def call_real(case):
             raised = type(e).__name__
     finally:
         shutil.rmtree(d, ignore_errors=True)
-    out, rk, pay, txt, ok = project(rows, scale, names)
-    return {"impl": impl, "desc": bool(desc), "inputs": [list(map(int, s)) for s in inputs],
+    out, rk, pay, txt, ok = project(rows, scale, names, exact_types=(impl == "rowdict" and case["fmt"] == "parquet"))
+    return {"nullpay": bool(case.get("nullpay")) and case["fmt"] == "parquet", "impl": impl, "desc": bool(desc), "inputs": [list(map(int, s)) for s in inputs],
             "raised": bool(raised), "rtype": raised, "out": out, "rk": rk, "pay": pay, "txt": txt,
             "payload_ok": ok}
 
@@ -203,9 +218,9 @@ def make_case(idx, impl, desc, inputs, **fixed):
          "rchunk": 1 + (idx // 2) % (nmax + 1),
          "api": "merge_sort" if impl == "rowdict" else TABLE_APIS[(idx // 3) % len(TABLE_APIS)],
          "ochunk": 1 + (idx // 5) % (total + 1),
-         "scale": SCALE_NAMES[(idx // 7) % 3],
+         "scale": (SCALE_NAMES + ["inf"])[(idx // 7) % 4] if desc else SCALE_NAMES[(idx // 7) % 3],
          "default_desc": bool((idx // 11) % 2),
-         "styled": bool((idx // 4) % 3 == 1),
+         "styled": bool((idx // 4) % 3 == 1), "nullpay": bool((idx // 9) % 2 == 1),
          "history": [None, None, "abandoned", "interleaved"][(idx // 6) % 4] if impl == "rowdict" else None}
     c.update(fixed)
     return c
